@@ -555,7 +555,13 @@ func genExpLit(r *hx.Rng, d int) string {
 			"0x1ep3", "-0Xep1", "+0x1e", "0xe", "1e5_0", "infe", "nane5", "-0e5", "+0e-5", "0e99999", "1e308", "1.8e308", "1.7976931348623157e308",
 			"1.7976931348623159e308", "2.5e-324", "2.4e-324", "4.9e-324", "1e-323", "1e10000", "1e-10000", "1e99999999999999999999",
 			"1e-99999999999999999999", ".e5", "1.e5", ".5e5", "1..e5", "+-1e5", "1e5e3", "1.5e2.5", "e5", "+e5", "1e 5", " 1e5", "1e5 ",
-			"\"1e5\"", "\"1e5", "1e5\"", "\"\"1e5\"\"", "1e+05", "1e-05", "1E+0", "1e-0", "00001e2", "1e0000000000000000000000002"})
+			"\"1e5\"", "\"1e5", "1e5\"", "\"\"1e5\"\"", "1e+05", "1e-05", "1E+0", "1e-0", "00001e2", "1e0000000000000000000000002",
+			"1_0e1", "1_23.50_0_0e+1_2", "-_123.5e+12", "1e5_0", "1__0e1", "_1e1", "1_e1", "1e_1", "1._5e1", "1_.5e1", "0_1e1", "1e1_",
+			"0x1_0p1e", "0_0e1", "1e+_1", "0b1e1", "0o1e1", "0b1_0e1", "0B_1e1", "0_e1", "0_x1e1", "0x1ep3", "-0XE.8P-1", "0x_1ep3", "0x1e_p3",
+			"0x1ep3_0", "0x1ep_3", "0xe", "0x.ep1", "0x.p1e", "0xep", "0x1e.p+0_1", "0x1.fffffffffffff8ep1023", "0x1.fffffffffffff7ep1023",
+			"0x0.0000000000000000000000000000000000000000000000ep-1000", "0x1ep-1074", "0x1ep-1079", "0x1ep-1080", "0x1.e000000000000p-1027",
+			"0xe.0000000000001p0", "0xe.00000000000008p0", "0xe.00000000000018p0", "0xe.000000000000080000000001p0", "0x1E", "0xEp", "0xep+", "0xep-_1",
+			"+0xep0", "-0xEP0", "0x0ep99999", "0xep-99999", "0xep1_0", "0x_ep1", "0xe_p1", "0xe._1p1", "0x1,ep1", "0x1e p1", "0xep1e", "0xgep1"})
 	case 3: // the product value * 10^D at the edge of int64: 9.22337203685477xxxxe(18-D)
 		m := hx.Pick(r, []string{"9.223372036854775", "9.223372036854776", "9.2233720368547758", "9.2233720368547759", "9.223372036854774",
 			"9.22337203685477", "9.2233720368547748", "9.3", "9.2", "4.611686018427388", "18.446744073709552"})
@@ -595,6 +601,43 @@ func genExpLit(r *hx.Rng, d int) string {
 			s = s[:i] + "," + s[i:]
 		}
 		return pick3(r) + s
+	case 12: // hexadecimal floats (the 'e' is a mantissa digit): short and long mantissas (strconv keeps 16 hex digits and a
+		// sticky bit), fractions, exponents at both ends of the float64 range, products at the edge of int64 / int128
+		m := hexDigits(r, hx.Pick(r, []int{0, 1, 2, 3, 8, 13, 14, 15, 16, 17, 18, 30}))
+		i := r.Intn(len(m) + 1)
+		m = m[:i] + e() + m[i:]
+		if r.Chance(1, 3) {
+			m += "." + hexDigits(r, r.Intn(6))
+		} else if r.Chance(1, 8) {
+			m = "." + m
+		}
+		ex := strconv.Itoa(r.Intn(70))
+		switch r.Intn(6) {
+		case 0:
+			ex = strconv.Itoa(hx.Pick(r, []int{960, 1000, 1015, 1019, 1020, 1023, 1024, 1070, 1074, 1075, 1080, 1130, 10000, 99999}))
+		case 1: // value * 10^D near 2^63 resp. 2^127
+			ex = strconv.Itoa(hx.Pick(r, []int{63, 127}) - 4*(len(m)-1) - int(float64(d)*3.33) + r.Intn(5) - 2)
+		}
+		s := pick3(r) + hx.Pick(r, []string{"0x", "0X"}) + m + hx.Pick(r, []string{"p", "P"}) + hx.Pick(r, []string{"", "+", "-"}) + ex
+		if r.Chance(1, 4) { // an underscore somewhere (allowed only between digits or behind the prefix)
+			i := r.Intn(len(s) + 1)
+			s = s[:i] + "_" + s[i:]
+		}
+		if r.Chance(1, 10) { // malformed neighbours: no exponent, no digit behind p, two dots
+			s = hx.Pick(r, []string{strings.Replace(s, "p", "", 1), s + "p", strings.Replace(s, "p", "p.", 1), s + ".", s + "e1"})
+		}
+		return s
+	case 13: // underscores in decimal exponent literals: between digits (accepted) and everywhere else (rejected)
+		s := pick3(r) + strconv.Itoa(1+r.Intn(9)) + digits(r, 1+r.Intn(5))
+		if r.Bool() {
+			s += "." + digits(r, 1+r.Intn(d+2))
+		}
+		s += e() + hx.Pick(r, []string{"", "+", "-"}) + strconv.Itoa(r.Intn(30))
+		for n := 1 + r.Intn(2); n > 0; n-- {
+			i := r.Intn(len(s) + 1)
+			s = s[:i] + "_" + s[i:]
+		}
+		return s
 	default:
 		s := pick3(r) + digits(r, 1+r.Intn(4))
 		if r.Bool() {
@@ -602,6 +645,14 @@ func genExpLit(r *hx.Rng, d int) string {
 		}
 		return s + e() + hx.Pick(r, []string{"", "+", "-"}) + strconv.Itoa(r.Intn(25))
 	}
+}
+
+func hexDigits(r *hx.Rng, n int) string {
+	var sb strings.Builder
+	for i := 0; i < n; i++ {
+		sb.WriteByte("0123456789abcdefABCDEF"[r.Intn(22)])
+	}
+	return sb.String()
 }
 
 func (expArea) Gen(r *hx.Rng, n int, _ string, emit func(string)) {
